@@ -4,7 +4,7 @@ optimize() (property oracle of C02), and with/without-debug-info artefacts of
 whole programs (C08)."""
 import struct
 from implfns.common import *
-from implfns import machfn
+from implfns import machfn, peepobs
 from implfns.machfn import MPeriph, state_out, CRASH
 from qbee.qvm_codegen import QvmCode, QvmInstr
 from qvm.instrs import op_to_instr
@@ -206,23 +206,25 @@ def exec_window(case):
     if isinstance(r, dict):
         return r
     rb, ra, fa = r
-    out = {'changed': True, 'before': rb, 'after': ra, 'after_final': fa}
-    if rb != ra:
+    out = {'changed': True, 'before': rb, 'after': ra, 'after_final': fa,
+           'diff': peepobs.diffkind(rb, ra)}
+    if out['diff'] is not None:
         w = case['window']
         n = len(w)
-        best = w
+        out['minimal'], out['min_diff'] = w, out['diff']
         done = False
         for k in range(1, n):
             for a in range(0, n - k + 1):
                 sub = w[a:a + k]
                 r2 = exec_one(case['pre'], sub)
-                if isinstance(r2, tuple) and r2[0] != r2[1]:
-                    best = sub
-                    done = True
-                    break
+                if isinstance(r2, tuple):
+                    dk = peepobs.diffkind(r2[0], r2[1])
+                    if dk is not None:
+                        out['minimal'], out['min_diff'] = sub, dk
+                        done = True
+                        break
             if done:
                 break
-        out['minimal'] = best
     return out
 
 
@@ -329,6 +331,8 @@ def dbg_case(case):
                 s = sections(bc)
                 d['sec'] = [s.get(1), s.get(2), s.get(3)]
                 d['has5'] = 5 in s
+                if lv == 1:
+                    d['code'] = s.get(4)
             r[key] = d
         if lv == 2:
             # the unoptimised marked list of the same pipeline, then the real optimize()
